@@ -54,8 +54,17 @@ def optEq {α} [BEq α] (a b : Option α) : Bool :=
   | some x, some y => x == y
   | _, _ => false
 
-/-- the clauses of C09 on one returned value -/
-def fgClauses (g : G) (kmax tclimit : Nat) (o : FgOut) : List (String × Bool) :=
+/-- evaluate groups of clauses in order and stop at the first group with a failing clause
+    (the later groups are the expensive oracles) -/
+def stages : List (Unit → List (String × Bool)) → String
+  | [] => ok
+  | s :: rest =>
+    match (s ()).find? (fun c => !c.2) with
+    | some c => fail c.1
+    | none => stages rest
+
+/-- the clauses of C09 on one returned value, cheapest group first -/
+def fgClauses (g : G) (kmax tclimit : Nat) (o : FgOut) : List (Unit → List (String × Bool)) :=
   let n := o.ngens
   let facetOk := fun (d i : Nat) => 1 ≤ d && d ≤ g.size && i ≤ g.dim
   let word := fun (d i : Nat) => ((o.e2w.find? (fun e => e.1 == (d, i))).map (·.2)).getD []
@@ -91,20 +100,24 @@ def fgClauses (g : G) (kmax tclimit : Nat) (o : FgOut) : List (String × Bool) :
   let okLetters := allWords.all (lettersInRange n)
   let pImpl := simplify { ngens := n, rels := if okLetters then o.relators else [] }
   let pText := simplify (textbook g)
-  let abI := abelianInvariants pImpl
-  let abT := abelianInvariants pText
+  let abelian : Unit → List (String × Bool) := fun _ =>
+    let abI := abelianInvariants pImpl
+    let abT := abelianInvariants pText
+    [ ("abelianisation-oracle-within-budget", abI.isSome && abT.isSome),
+      ("same-abelianisation", optEq abI abT) ]
   let budget := 3000000
-  let idxClauses : List (String × Bool) := ((List.range (kmax + 1)).filter (· ≥ 2)).flatMap fun k =>
-    let cI := subgroupCounts pImpl k budget
-    let cT := subgroupCounts pText k budget
-    [ (s!"subgroup-oracle-within-budget-index-{k}", cI.isSome && cT.isSome),
-      (s!"same-number-of-subgroups-of-index-{k}", cI.isNone || cT.isNone || (cI.map (·.1)) == (cT.map (·.1))),
-      (s!"same-number-of-conjugacy-classes-of-subgroups-of-index-{k}",
-        cI.isNone || cT.isNone || (cI.map (·.2)) == (cT.map (·.2))) ]
+  let idxClauses : List (Unit → List (String × Bool)) :=
+    ((List.range (kmax + 1)).filter (· ≥ 2)).map fun k => fun _ =>
+      let cI := subgroupCounts pImpl k budget
+      let cT := subgroupCounts pText k budget
+      [ (s!"subgroup-oracle-within-budget-index-{k}", cI.isSome && cT.isSome),
+        (s!"same-number-of-subgroups-of-index-{k}", cI.isNone || cT.isNone || (cI.map (·.1)) == (cT.map (·.1))),
+        (s!"same-number-of-conjugacy-classes-of-subgroups-of-index-{k}",
+          cI.isNone || cT.isNone || (cI.map (·.2)) == (cT.map (·.2))) ]
   -- HLT enumeration can need far more cosets than the order of the group; a second stage with a
   -- large limit is run only where finiteness is already known
   let bigLimit := 3000000
-  let orderClauses : List (String × Bool) :=
+  let orderClauses : Unit → List (String × Bool) := fun _ =>
     if g.dim == 2 then
       let (num, _) := curvature2d g
       if num > 0 then
@@ -126,9 +139,7 @@ def fgClauses (g : G) (kmax tclimit : Nat) (o : FgOut) : List (String × Bool) :
       | none, some b => [("same-finite-order", orderTC pImpl bigLimit == some b)]
       | none, none => []
     else []
-  structural ++ tracing ++
-    [ ("abelianisation-oracle-within-budget", abI.isSome && abT.isSome),
-      ("same-abelianisation", optEq abI abT) ] ++ idxClauses ++ orderClauses
+  [fun _ => structural, fun _ => tracing, abelian] ++ idxClauses ++ [orderClauses]
 
 def handler : Handler := fun op inp out =>
   let bad := ("-", fail "driver-cannot-parse-input")
@@ -144,7 +155,7 @@ def handler : Handler := fun op inp out =>
         | _ => "PANIC"
       if !validSymbol g then (model, fail "input-is-not-a-connected-complete-symbol") else
       match run P.fgOut out with
-      | some o => (model, check (fgClauses g kmax tclimit o))
+      | some o => (model, stages (fgClauses g kmax tclimit o))
       | none => (model, fail "no-presentation-returned")
     | none => bad
   | "inner" =>
